@@ -98,16 +98,17 @@ def opRfa : List String → String
           nats? aL, nats? aR, nats? bL, nats? bR with
     | some s, some pw, some n, some x, some y, some aL, some aR, some bL, some bR =>
       let m := x.length
-      if n < 2 then "ERR ValueError"
-      else if m < 2 ∨ y.length ≠ m then "unmodelled"
-      else
-        let w : Rfa.Windows := { aL := listFn aL, aR := listFn aR, bL := listFn bL, bR := listFn bR }
-        if s ≠ .pc ∧ !Rfa.windowsOk w m n then "unmodelled"
+      let w : Rfa.Windows := { aL := listFn aL, aR := listFn aR, bL := listFn bL, bR := listFn bR }
+      let xf := arrFn x.toArray
+      let yf := arrFn y.toArray
+      match Rfa.run s pw xf yf m n w with
+      | .error e => "ERR " ++ toString e
+      | .ok (ox, oy) =>
+        if m < 2 ∨ y.length ≠ m then "unmodelled"
+        else if s ≠ .pc ∧ !Rfa.windowsOk w m n then "unmodelled"
         else
-          let xf := arrFn x.toArray
-          let yf := arrFn y.toArray
           let L := Rfa.outLen m n
-          s!"ok {fmtRats (tab L (Rfa.outX xf m n)).toList} {fmtRats (tab L (Rfa.outY s pw xf yf m n w)).toList}"
+          s!"ok {fmtRats (tab L ox).toList} {fmtRats (tab L oy).toList}"
     | _, _, _, _, _, _, _, _, _ => bad
   | _ => bad
 
